@@ -178,6 +178,7 @@ def run_impl(case, table, env=None):
             txt = bytes(r0.choice(b"abcdefXYZ_0189") for _ in range(r0.randrange(0, field_size(pack, cnt) + 1)))
             machine.poke(case["x"], case["y"], vcpu_base + table["vcpu"]["size"] * case["p"] + off,
                          txt.ljust(field_size(pack, cnt), b"\x00"))
+    before = {k: dict(v) for k, v in machine.mem.items()}
     with simnet.installed(net):
         if env is not None and "mc" in env:
             mc = env["mc"]
@@ -392,6 +393,8 @@ def eval_cases(ctx, cases, table, env=None):
     for (case, res), r in zip(meta, ctx.lean(reqs)):
         impl_err = res.get("error")
         got = cmds_as_chunks(res["cmds"])
+        if impl_err == "Timeout" and not res["cmds"]:
+            continue        # the buffer-size query itself timed out: the operation never started
         if "err" in r:
             if impl_err != r["err"]:
                 ctx.mismatch("c07." + case["op"], "model raises %s, implementation: %r" % (r["err"], impl_err), case)
@@ -432,7 +435,7 @@ def run(ctx):
         sess = []
         chips = [(0, 0), (0, 1), (1, 0), (1, 1)]
         ctx.rng.shuffle(chips)
-        pre = ctx.rng.choice(["", "", "sver", "restruct", "restruct"])
+        pre = ctx.rng.choice(["", "", "sver", "restruct", "restruct", "sverfail"])
         n_steps = ctx.rng.randrange(2, 5) + (1 if pre else 0)
         swap_at = ctx.rng.randrange(1, n_steps - 1) if n_steps > 2 else 1
         for i in range(n_steps):
@@ -450,7 +453,11 @@ def run(ctx):
             c.update(buf=buf, window=window, script={}, x=chips[i % 4][0], y=chips[i % 4][1], session_step=i)
             if "data" in c:
                 c["data"] = c["data"][:c["len"]]
-            if i == 0 and pre == "sver":
+            if i == 0 and pre == "sverfail":
+                # every try of the controller's first buffer-size query is lost (the call raises the timeout
+                # error); the program keeps using the controller afterwards
+                c["script"] = {str(k): [] for k in range(5)}
+            elif i == 0 and pre == "sver":
                 # before anything else: an application core reports ANOTHER buffer size in its sver reply
                 c.update(op="sver", p=ctx.rng.randrange(1, 18), app_buf=ctx.rng.choice([2 * buf, buf + 4, max(4, buf // 2)]))
             elif i > 0 and pre == "restruct" and i == swap_at:
